@@ -50,7 +50,7 @@ KV_SHAPES = ["ident", "field", "uint", "float", "bool", "str", "str_semi", "str_
 MSG_SHAPES = ["plain", "placeholder", "escquote", "unicode", "reflike_inside", "commentish", "parens", "empty", "braces", "named_inline",
               "width", "leading_space"]
 FEATS = {
-    "path": ["bare", "qual"], "level": ["info", "warn", "error"], "target": ["none", "plain", "colons", "slashes", "escq"],
+    "path": ["bare", "qual"], "level": ["info", "warn", "error"], "target": ["none", "plain", "colons", "slashes", "escq", "blockopen"],
     "nkv": [0, 1, 2, 3], "kv0": KV_SHAPES, "msg": MSG_SHAPES, "lay": ["tight", "space", "nl", "blockc", "linec"],
     "directive": ["none", "none", "none", "ignore", "no-kvp"], "trailcomma": [False, True],
 }
@@ -108,7 +108,7 @@ def build_program(rows, seed, structured):
         macro = f["level"] if f["path"] == "bare" else "log::" + f["level"]
         parts = [macro, "!(", L()]
         if f["target"] != "none":
-            t = {"plain": "app", "colons": "app::db", "slashes": "http://svc/x", "escq": 'a\\"b'}[f["target"]]
+            t = {"plain": "app", "colons": "app::db", "slashes": "http://svc/x", "escq": 'a\\"b', "blockopen": "glob/* and */ too"}[f["target"]]
             parts += ['target: "%s"' % t, L(), ",", L() or " "]
         nkv = f["nkv"]
         keys = rnd.sample(KEYS, nkv)
